@@ -106,18 +106,54 @@ func c10KindSwitches(f *kit.Func) []*c10Switch {
 func c10ClauseCalls(f *kit.Func, cc *ast.CaseClause) (refl map[string]bool, fns map[*kit.Func]bool) {
 	refl, fns = map[string]bool{}, map[*kit.Func]bool{}
 	for _, st := range cc.Body {
-		ast.Inspect(st, func(n ast.Node) bool {
-			if call, ok := n.(*ast.CallExpr); ok {
-				if nm := kit.RCallName(f.Info(), call); nm != "" {
-					refl[nm] = true
-				} else if g := f.CalleeFunc(call); g != nil {
-					fns[g] = true
-				}
-			}
-			return true
-		})
+		c10CallsOf(f, st, refl, fns, 0)
 	}
 	return
+}
+
+var c10HasKindSwitch = map[*kit.Func]bool{}
+
+// c10IsPlainHelper: an unexported function of the same package without a kind
+// switch of its own; what it does is attributed to the arm that calls it.
+func c10IsPlainHelper(f, g *kit.Func) bool {
+	if g == nil || g.Decl == nil || g.Body == nil || g.Pkg != f.Pkg || ast.IsExported(g.Decl.Name.Name) {
+		return false
+	}
+	has, ok := c10HasKindSwitch[g]
+	if !ok {
+		has = len(c10KindSwitches(g)) > 0
+		c10HasKindSwitch[g] = has
+	}
+	return !has
+}
+
+func c10CallsOf(f *kit.Func, n ast.Node, refl map[string]bool, fns map[*kit.Func]bool, depth int) {
+	ast.Inspect(n, func(x ast.Node) bool {
+		if call, ok := x.(*ast.CallExpr); ok {
+			if nm := kit.RCallName(f.Info(), call); nm != "" {
+				refl[nm] = true
+			} else if g := f.CalleeFunc(call); g != nil && !fns[g] {
+				fns[g] = true
+				if depth < 3 && c10IsPlainHelper(f, g) {
+					c10CallsOf(g, g.Body, refl, fns, depth+1)
+				}
+			}
+		}
+		return true
+	})
+}
+
+// c10HelperClosure lists the plain helpers reachable from node n of f.
+func c10HelperClosure(f *kit.Func, n ast.Node) []*kit.Func {
+	fns := map[*kit.Func]bool{}
+	c10CallsOf(f, n, map[string]bool{}, fns, 0)
+	var out []*kit.Func
+	for _, g := range f.Prog.Funcs(f.PkgRel()) {
+		if fns[g] && c10IsPlainHelper(f, g) {
+			out = append(out, g)
+		}
+	}
+	return out
 }
 
 var c10Getters = map[string]string{"Value.Bool": "bool", "Value.Int": "int", "Value.Uint": "uint", "Value.Float": "float", "Value.String": "string"}
@@ -483,23 +519,34 @@ func c10LenLike(f *kit.Func, e ast.Expr) bool {
 	return false
 }
 
-// indexLike: the function also compares e against <length> - 1.
+// indexLike: the function also compares e against <length> - 1 (or e + 1
+// against <length>), possibly through a local such as `minLen := e + 1`.
 func c10IndexLike(f *kit.Func, e ast.Expr) bool {
 	info := f.Info()
 	found := false
+	norm := func(x ast.Expr) (ast.Expr, int64) {
+		t, c := c10PlusConst(info, x)
+		if r := c10ResolveLocal(f, t); r != t {
+			t2, c2 := c10PlusConst(info, r)
+			return t2, c + c2
+		}
+		return t, c
+	}
 	ast.Inspect(f.Body, func(n ast.Node) bool {
 		be, ok := n.(*ast.BinaryExpr)
 		if !ok {
 			return true
 		}
+		switch be.Op {
+		case token.LSS, token.LEQ, token.GTR, token.GEQ, token.EQL, token.NEQ:
+		default:
+			return true
+		}
 		for _, p := range [][2]ast.Expr{{be.X, be.Y}, {be.Y, be.X}} {
-			if !kit.SameExpr(info, p[0], e) {
-				continue
-			}
-			if sub, ok := ast.Unparen(p[1]).(*ast.BinaryExpr); ok && sub.Op == token.SUB {
-				if v, ok := kit.ConstInt(info, sub.Y); ok && v == 1 && c10LenLike(f, sub.X) {
-					found = true
-				}
+			t1, c1 := norm(p[0])
+			t2, c2 := norm(p[1])
+			if kit.SameExpr(info, t1, e) && c10LenLike(f, t2) && c1-c2 == 1 {
+				found = true
 			}
 		}
 		return true
@@ -565,9 +612,20 @@ func c10Limits(c *kit.Ctx, f *kit.Func, role string) (out []*c10Limit, undecided
 
 func c10R3(c *kit.Ctx, m *c10Model) {
 	r3 := c.Rule("R3", "size and integer limits agree between the directions", 12)
-	app, _ := c10Limits(c, m.appender.f, "appender")
-	set, _ := c10Limits(c, m.setter.f, "setter")
-	dif, _ := c10Limits(c, m.differ.f, "differ")
+	withHelpers := func(sw *c10Switch, role string) []*c10Limit {
+		out, _ := c10Limits(c, sw.f, role)
+		for _, h := range c10HelperClosure(sw.f, sw.sw) {
+			if h == m.encF || h == m.decF {
+				continue
+			}
+			more, _ := c10Limits(c, h, role)
+			out = append(out, more...)
+		}
+		return out
+	}
+	app := withHelpers(m.appender, "appender")
+	set := withHelpers(m.setter, "setter")
+	dif := withHelpers(m.differ, "differ")
 	if len(app) < 4 || len(set) < 2 || len(dif) < 4 {
 		c.Fatalf("size refusals found: appender %d (expected >= 4), setter %d (>= 2), differ %d (>= 4)", len(app), len(set), len(dif))
 	}
